@@ -175,6 +175,96 @@ func runC12(w *World, r *Report) {
 		}
 	}
 
+	// ---- strings: only valid UTF-8 is representable (JSON encoding replaces invalid bytes by U+FFFD without an error),
+	// so every JSON encoding of a basic value or of a map key is preceded by a validity check that fails loudly; and the
+	// nil exit of the pointer-peeling loop records the FULL pointer depth of the type (a nil **T must come back as **T)
+	r.Rule("C12.representable-or-error", "internalMarshal: each json encoding of a basic value / map key is dominated by a UTF-8 validity check whose failure returns an error; on the nil-pointer exit every remaining pointer level is counted into PointerNum", 3)
+	{
+		im := w.Fn("internal/serialization", "internalMarshal")
+		reachesValid := func(f *ssa.Function) bool {
+			found := false
+			for _, g := range append([]*ssa.Function{f}, staticCalleesOf(w, f)...) {
+				instrs(g, func(in ssa.Instruction) {
+					if n := calleeFullName(in); n == "unicode/utf8.ValidString" || n == "unicode/utf8.Valid" {
+						found = true
+					}
+				})
+			}
+			return found
+		}
+		var checks []ssa.CallInstruction
+		instrs(im, func(in ssa.Instruction) {
+			c, ok := in.(ssa.CallInstruction)
+			if !ok {
+				return
+			}
+			if n := calleeFullName(in); n == "unicode/utf8.ValidString" {
+				checks = append(checks, c)
+				return
+			}
+			if sc := staticCallee(c); sc != nil && w.inRepo(sc) && origin(sc) != im && reachesValid(sc) {
+				checks = append(checks, c)
+			}
+		})
+		n := 0
+		instrs(im, func(in ssa.Instruction) {
+			name := calleeFullName(in)
+			if name != "encoding/json.Marshal" && !strings.HasSuffix(name, "sonic.MarshalString") && !strings.HasSuffix(name, "sonic.Marshal") {
+				return
+			}
+			n++
+			good := false
+			for _, ck := range checks {
+				if !instrDominates(ck, in) {
+					continue
+				}
+				// the check's failure leaves: the encoding is on the success side of a test on the check's result
+				if hasGuard(in.Block(), func(g guard) bool {
+					if guardErrNil(g) {
+						if e, ok := condOperand(g.cond).(*ssa.Call); ok && ssa.Instruction(e) == ssa.Instruction(ck) {
+							return true
+						}
+						if e, ok := condOperand(g.cond).(*ssa.Extract); ok && e.Tuple == ck.(ssa.Value) {
+							return true
+						}
+					}
+					return g.cond == ck.(ssa.Value) && g.pol
+				}) {
+					good = true
+				}
+			}
+			r.Check(good, "C12.representable-or-error", fmt.Sprintf("internalMarshal: json encoding #%d is preceded by a failing UTF-8 check", n), in.Pos(), "dominated by a validity check whose failure returns an error", "a string (basic value or map key) is JSON-encoded without a validity check: invalid UTF-8 is silently replaced by U+FFFD — the checkpoint is written without error and the resumed run continues with a different value")
+		})
+		if n < 2 {
+			r.Fail("C12.representable-or-error", "internalMarshal: json encodings", im.Pos(), fmt.Sprintf("%d json encodings found (basic value + map key expected)", n))
+		}
+		// nil exit: the inner loop that strips the remaining pointer levels counts them
+		fPN := w.Field("internal/serialization", "internalStruct", "PointerNum")
+		okNil, sawNil := false, false
+		for _, li := range naturalLoops(im) {
+			// a loop nested in the arm guarded by rv.IsNil()
+			inNil := false
+			for b := range li.body {
+				if hasGuard(b, func(g guard) bool {
+					c, ok := g.cond.(*ssa.Call)
+					return ok && g.pol && calleeFullName(c) == "(reflect.Value).IsNil"
+				}) {
+					inNil = true
+				}
+			}
+			if !inNil {
+				continue
+			}
+			sawNil = true
+			for _, fw := range fieldWrites(im) {
+				if sameField(fw.field, fPN) && li.body[fw.in.Block()] {
+					okNil = true
+				}
+			}
+		}
+		r.Check(sawNil && okNil, "C12.representable-or-error", "internalMarshal: the nil exit records the full pointer depth", im.Pos(), "the loop stripping the remaining pointer levels increments PointerNum", "a nil pointer of depth > 1 (a nil **T, or a nil **T field / slice element / map value) is recorded with the depth at which the nil was met: Marshal succeeds, Unmarshal rejects the bytes ('decoded value of type *T is not assignable to **T') and the checkpoint is lost at resume; in an `any` holder the value silently comes back as (*T)(nil)")
+	}
+
 	r.Rule("C12.codec-agree", "internalStruct fields written by internalMarshal == fields read by internalUnmarshal", 10)
 	written := map[string]bool{}
 	for _, fw := range fieldWrites(im) {
@@ -918,3 +1008,28 @@ func pointerDepthCheck(w *World, r *Report, rule string) {
 }
 
 var c12ReflectExceptions = map[string]string{}
+
+// condOperand: for `x == nil` / `x != nil` returns x; otherwise the condition itself.
+func condOperand(v ssa.Value) ssa.Value {
+	if _, x, y, ok := asCmp(v); ok {
+		if isNilConst(y) {
+			return x
+		}
+		if isNilConst(x) {
+			return y
+		}
+	}
+	return v
+}
+
+func staticCalleesOf(w *World, f *ssa.Function) []*ssa.Function {
+	var out []*ssa.Function
+	instrs(f, func(in ssa.Instruction) {
+		if c, ok := in.(ssa.CallInstruction); ok {
+			if sc := staticCallee(c); sc != nil && w.inRepo(sc) {
+				out = append(out, sc)
+			}
+		}
+	})
+	return out
+}
